@@ -37,7 +37,7 @@ def select(ctx, reqs, rng):
     if ctx.quick():
         core = [r for r in full if add_deviation(r) <= 2]
         others = [r for r in full if add_deviation(r) > 2]
-        out = rest + core + rng.sample(others, min(2500, len(others)))
+        out = rest + core + rng.sample(others, min(1500, len(others)))
     else:
         out = list(full)
         for r in rest:
@@ -106,6 +106,8 @@ def run(ctx):
         "'reset' = the harness daemon resets every accepted connection, 'slow' = it answers after 1 s through a proxy whose "
         "client-leg timeouts (read_header_timeout, idle_timeout) are 300 ms; a connection dropped on all 4 attempts while the "
         "daemon is down/reset is recorded as an observation (AnswersAlways), any other transport failure is retried / infra",
+        "slow client: the request body is sent in two halves with a 1 s pause through the proxy whose read_header_timeout "
+        "and idle_timeout are 300 ms (read_timeout unset)",
         "repo/stat with cluster=real3 runs against three real Cluster peers (real RPC server + authorization policy, "
         "connected libp2p hosts, harness consensus/connectors); a failing peer may show as an error or as the sum over the "
         "healthy peers (the statement does not say; the code logs and skips)",
@@ -130,7 +132,7 @@ def run(ctx):
     reqs = [json.loads(l) for l in open(cases_file)]
     ctx.extra["request_classes_enumerated_by_tlc"] = len(reqs)
     sel = select(ctx, reqs, rng)
-    seqs = sequences(ctx, 150 if ctx.quick() else 3000, 14 if ctx.quick() else 25)
+    seqs = sequences(ctx, 120 if ctx.quick() else 3000, 14 if ctx.quick() else 25)
     inp = os.path.join(ctx.work, "c12_cases.ndjson")
     n = 0
     with open(inp, "w") as f:
@@ -187,6 +189,8 @@ CLASSES = [("dropped", "AnswersAlways"), ("exact", "HijackExact"), ("relay", "Re
 def key_of(cls, rec):
     q, o = rec["req"], rec["obs"]
     dm = "" if q.get("daemon", "up") == "up" else ":daemon=" + q["daemon"]
+    if q.get("client", "-") != "-":
+        dm += ":client=" + q["client"]
     if cls == "dropped":
         return "C12:dropped:%s:%s%s" % (q["route"] if q["pathk"] == "route" else q["pathk"], q["method"], dm)
     if q["pathk"] != "route":
